@@ -251,6 +251,20 @@ func checkScanRow(c *sim.Ctx, row sqlittle.Row) {
 			c.Eval(3)
 		}
 	}
+	// a nil pointer of a supported type is no destination: an error, never a panic
+	for i := 0; i <= len(row); i++ {
+		for _, np := range []struct {
+			name string
+			p    interface{}
+		}{{"(*string)(nil)", (*string)(nil)}, {"(*[]byte)(nil)", (*[]byte)(nil)}, {"(*int64)(nil)", (*int64)(nil)}, {"(*int)(nil)", (*int)(nil)}, {"(*int32)(nil)", (*int32)(nil)}, {"(*bool)(nil)", (*bool)(nil)}, {"(*float64)(nil)", (*float64)(nil)}, {"(*time.Time)(nil)", (*time.Time)(nil)}} {
+			a := make([]interface{}, i+1)
+			a[i] = np.p
+			if err, ok := guard(i, np.name, func() error { return row.Scan(a...) }); ok && err == nil {
+				fail(i, np.name, "a nil pointer was accepted as destination")
+			}
+			c.Eval(1)
+		}
+	}
 	var all []string
 	if _, ok := guard(0, "ScanStrings", func() error { all = row.ScanStrings(); return nil }); ok {
 		c.Eval(1)
